@@ -43,8 +43,16 @@ CONFIGS = {
     ('n=3 min2 max3 hi2.0 jitter round with a pending open and a member leaving',
      cfg(3, 2, 3, 2.0, ops=['D', 'C', 'Adv', 'Open', 'Leave'], advs=[1], max_out=2, jitter_min=1, jitter_max=2, key_timers=True,
          open_mode='pending', ok_first=2, max_notifications=1), 7),
+    ('n=2 min1 max2 hi1.0 the only active member goes down while its replacement is still opening',
+     cfg(2, 1, 2, 1.0, ops=['D', 'C', 'Adv', 'Down', 'Open'], advs=[3], max_out=3, max_down=1, open_mode='pending', ok_first=1), 7),
+    ('n=3 min1 max3 hi1.0 every member may be down at once, requests keep arriving and are answered',
+     cfg(3, 1, 3, 1.0, ops=['D', 'C', 'Adv', 'Down'], advs=[3], max_out=3, max_down=3), 7),
   ],
   'thorough': [
+    ('n=2 min1 max2 hi1.0 the only active member goes down while its replacement is still opening',
+     cfg(2, 1, 2, 1.0, ops=['D', 'C', 'Adv', 'Down', 'Up', 'Open'], advs=[1, 3], max_out=4, max_down=2, open_mode='pending', ok_first=1), 8),
+    ('n=3 min1 max3 hi1.0 every member may be down at once, requests keep arriving and are answered',
+     cfg(3, 1, 3, 1.0, ops=['D', 'C', 'Adv', 'Down', 'Up'], advs=[1, 3], max_out=4, max_down=3), 8),
     ('n=3 min1 max2 hi1.0 traffic+time', cfg(3, 1, 2, 1.0, ops=TRAFFIC, advs=[0, 1, 2, 3], max_out=5), 9),
     ('n=4 min2 max3 hi2.0 traffic+time+failures', cfg(4, 2, 3, 2.0, ops=TRAFFIC + ['Down', 'Up'], advs=[1, 3], max_out=6, max_down=2), 8),
     ('n=3 min1 max2 hi1.0 requests 0.4 ms apart', cfg(3, 1, 2, 1.0, ops=TRAFFIC, advs=[4, 2], max_out=4), 8),
